@@ -186,6 +186,14 @@ def finish(rep, tier, seed, t0, meta, census, extra=None):
         ev["coverage"].update(extra)
     with open(os.path.join(ev_dir, prop + ".json"), "w") as f:
         json.dump(ev, f, indent=1)
+    try:
+        _emit(rep, prop, tier, ndis, nknown, nviol, wall, meta, per_rule, lines)
+    except BrokenPipeError:
+        pass
+    return 1 if nviol else 0
+
+
+def _emit(rep, prop, tier, ndis, nknown, nviol, wall, meta, per_rule, lines):
     print("== %s [%s]: %d obligations, %d discharged, %d known findings, %d violations (%.1fs; facts %s)" % (
         prop, tier, len(rep.obs), ndis, nknown, nviol, wall,
         "cached" if meta.get("cached") else "extracted in %ss" % meta.get("extract_s")))
@@ -194,4 +202,3 @@ def finish(rep, tier, seed, t0, meta, census, extra=None):
             r, d["obligations"], d["discharged"], d["known_findings"], d["violations"]))
     for l in lines:
         print(l)
-    return 1 if nviol else 0
